@@ -43,6 +43,14 @@ CLASSES = (gmutate.FS_CLASSES + gmutate.MAN_CLASSES + gmutate.ODD_CLASSES * 2
 N = {'quick': 4000, 'thorough': 200000}
 
 ODD_TEXTS = [
+    # checksum values that are not hexadecimal / not ASCII, for existing files of
+    # the listed size (the comparison itself is reached)
+    'DATA a 3 MD5 \uff14\uff17bce5c74f589f4867dbd57e9ca9f808\n',
+    'DATA a 3 SHA256 \u2026\n',
+    'DATA sub/inner 1 MD5 caf\xe9 SHA1 \u0416\n',
+    'MISC sub/f/inner 0 SHA512 \xe9\n',
+    'DATA a 3 MD5 47BCE5C74F589F4867DBD57E9CA9F808\n',
+    'DATA a 3 MD5 \U0001f600\n',
     'IGNORE a\nIGNORE a\n',
     'DATA a 0 FOO abcd\n',
     'DATA a 0 WHIRLPOOL abcd\n',
@@ -457,12 +465,25 @@ def run_strayman(u, ctx):
     else:
         variants = damaged_variants(u['fmt'])
         wheres = ('sub', 'sub/f', '')
+    name = 'Manifest' if u['fmt'] == 'plain' else 'Manifest.' + u['fmt']
     for how, raw in variants:
         for where in wheres:
             ctx.count('strayman:' + how.split('@')[0])
             exec_strayman(ctx, {'kind': 'strayman', 'fmt': u['fmt'], 'how': how,
                                 'where': where, 'raw': raw.hex(),
                                 'keep_sub_manifests': True})
+            if not where:
+                continue
+            # ... and the same file known to the tree as something that is not a
+            # Manifest: ignored, or listed as plain data
+            for tag in ('IGNORE', 'DATA', 'MISC'):
+                line = '%s %s/%s%s\n' % (tag, where, name,
+                                         '' if tag == 'IGNORE' else ' %d' % len(raw))
+                ctx.count('strayman_listed:' + tag)
+                exec_strayman(ctx, {'kind': 'strayman', 'fmt': u['fmt'],
+                                    'how': how + '+' + tag, 'where': where,
+                                    'raw': raw.hex(), 'top': line,
+                                    'keep_sub_manifests': True})
 
 
 def run_unit(u, ctx):
